@@ -357,9 +357,30 @@ def parse_strings(out):
 
 
 def parse_assumptions(out):
+    """One entry per `Print Assumptions`: 'Closed under the global context' or the list of names it depends on
+    (for theorems on the binary64 instance these are kernel primitives such as PrimFloat.add, not axioms of ours)."""
     res = []
-    for m in re.finditer(r"(Closed under the global context|Axioms:\n(?:.+\n?)+?)(?=\n\s*\n|\Z|\n[A-Z=])", out):
-        res.append(m.group(1).strip())
+    cur = None
+    for line in out.splitlines():
+        if line.startswith("Closed under the global context"):
+            if cur is not None:
+                res.append("Axioms: " + ", ".join(cur))
+                cur = None
+            res.append("Closed under the global context")
+        elif line.startswith("Axioms:"):
+            if cur is not None:
+                res.append("Axioms: " + ", ".join(cur))
+            cur = []
+        elif cur is not None:
+            m = re.match(r"^([A-Za-z_][A-Za-z0-9_.']*)\s*:", line)
+            if m:
+                cur.append(m.group(1))
+            elif line.strip() == "" or not line.startswith(" "):
+                if line.strip() and not re.match(r"^\s", line) and ":" not in line:
+                    res.append("Axioms: " + ", ".join(cur))
+                    cur = None
+    if cur is not None:
+        res.append("Axioms: " + ", ".join(cur))
     return res
 
 
